@@ -93,10 +93,6 @@ class Fill:
         return [[float(x) for x in row] for row in S]
 
 
-def _doms(N):
-    return dict(rg=[["rg", N]], un=[["un", N]])
-
-
 def scal(dom, f, dt):
     return dict(k="scal", dom=dom, f=f, dt=dt)
 
@@ -367,10 +363,10 @@ def _catalogue(tier, seed):
 def cases(tier, seed):
     out = []
     for group, label, spec in _catalogue(tier, seed):
-        e_sing = _singular(spec)
+        zero_scal = _singular(spec) and _root_kind(spec) == "scal"
         for trafo in (0, 1, 2, 3):
-            if trafo >= 2 and e_sing:
-                continue     # `.inverse` of a singular operator is not an operator: outside the premise
+            if trafo >= 2 and zero_scal:
+                continue     # ScalingOperator(0).inverse cannot even be formed (1/0): outside the premise
             for inv in (False, True):
                 out.append(dict(group=group, label=label, trafo=trafo, inv=inv, op=spec))
     gorder = dict(scal=0, diag=1, sand=2, block=3, sum=4, enab=5)
@@ -399,9 +395,6 @@ def _singular(spec):
 # =====================================================================================
 #                                   building the real operators
 # =====================================================================================
-_NPDT = None
-
-
 def _npdt(dt):
     if isinstance(dt, dict):
         return {k: _npdt(v) for k, v in dt.items()}
@@ -583,7 +576,8 @@ def _run(case):
     from vf import rngseam, dense as vd
     ift.logger.setLevel(logging.CRITICAL)
 
-    spec = case["op"] if not case["trafo"] else T(case["trafo"], case["op"])
+    trafo = int(case["trafo"])
+    spec = case["op"] if not trafo else T(trafo, case["op"])
     inv = bool(case["inv"])
     exp, why = M.expect(spec, inv)
     kd = M.kinds(spec)
@@ -606,11 +600,19 @@ def _run(case):
                    detail=dict(label=case["label"]))
 
     # ---- premise: op.apply is the reference matrix (otherwise "covariance equal to the operator" is ambiguous)
-    C, herm, mineig, Tgt = M.covariance_facts(spec, inv)
-    n = C.shape[0]
+    # (X.inverse).draw_sample(from_inverse) is a draw from X in the opposite direction; working from the
+    # untransformed matrix keeps singular X (zero variances, rank-deficient sandwiches) inside the space
+    Cb, herm, mineig, Tgt = M.covariance_facts(case["op"], _eff_inv(case), adjoint=bool(trafo & 1))
+    n = Cb.shape[0]
+    singular = _singular(case["op"])
     if op.domain.size != n:
         return bad("domain size %d != reference %d" % (op.domain.size, n), finding_key=_key(case, "domain-size"))
-    if op.capability & op.TIMES:
+    C = None
+    if not (trafo & 2):
+        C = Cb
+    elif not singular:
+        C = np.linalg.inv(Cb)
+    if C is not None and (op.capability & op.TIMES):
         try:
             R = vd.rmatrix(op, op.TIMES)
         except Exception as e:   # noqa
@@ -664,7 +666,7 @@ def _run(case):
     if Tgt is None:
         what = ("not Hermitian" if not herm else "min eigenvalue %.3g" % mineig)
         return bad("a sample was drawn from %s operator that cannot be a covariance (%s; %s)"
-                   % ("the inverse of an" if inv else "an", what, why or exp),
+                   % ("the inverse of an" if _eff_inv(case) else "an", what, why or exp),
                    finding_key=_key(case, "sampled-noncovariance"), detail=det)
     cg = M.uses_cg(spec, inv)
     tol = TOL_SINGLE if single else (TOL_CG if cg else TOL_DIRECT)
@@ -712,7 +714,7 @@ def _run(case):
         return ok(nontrivial=False, outcome="no-draws-zero-cov", stats=stats)
     path = "cg" if cg else "direct"
     zero = "zero-cov|" if np.abs(Tgt).max(initial=0.) == 0 else ""
-    return ok(nontrivial=True,
+    return ok(nontrivial=not zero,       # a zero covariance cannot expose a wrong factor
               outcome="%s|%s|%s|%s|%ssampled%s%s" % (case["group"], kindlabel, "inv" if inv else "fwd", path, zero,
                                                      "|hermitian-only" if herm_only else "",
                                                      "|although-%s" % exp if exp != M.SAMPLE else ""),
